@@ -235,38 +235,46 @@ def ReadOnly (prog : List MStep) : Bool :=
     | .set _ _ | .read _ _ | .brUnless _ _ | .ret _ => true
     | _ => false
 
-/-- the proposed repair of wasmMemoryGrow (tools/harness/grow_repaired.h), as gen_memfuncs.py flattens it:
-    lock first, then read `pages`, compute, check (unlocking on the failure paths), write, unlock. -/
+/-- The proposed repair of wasmMemoryGrow (`REPAIRED_GROW` in tools/harness/grow_sched.py) exactly as
+    gen_memfuncs.py flattens it (the C18 check re-derives this list from the patched header on every run and
+    compares): lock first; read `pages`, add, compare, write inside the critical section; wrap check
+    (`newPages >= oldPages`) instead of the `newPages == 0` early return; single exit through `unlock`.
+    registers: 0 delta, 1 doRealloc, 2 result, 3 %shared, 4 oldPages, 5 newPages, 6 %maxPages, 7 newSize,
+    8 failed, 9 oldSize, 10 deltaSize, 11 %data, 12 newData, 13 %shared -/
 def repairedSteps : List MStep := [
   /-  0 -/ .set 1 (.lit 1),
-  /-  1 -/ .read 4 .shared,
-  /-  2 -/ .brUnless (.reg 4) 2,
-  /-  3 -/ .set 1 (.lit 0),
-  /-  4 -/ .lock,
-  /-  5 -/ .read 2 .pages,
-  /-  6 -/ .set 3 (.add (.reg 2) (.reg 0)),
-  /-  7 -/ .read 5 .maxPages,
-  /-  8 -/ .brUnless (.lor (.lt (.reg 3) (.reg 2)) (.gt (.reg 3) (.reg 5))) 4,
-  /-  9 -/ .read 6 .shared,
-  /- 10 -/ .brUnless (.reg 6) 1,
-  /- 11 -/ .unlock,
-  /- 12 -/ .ret (.lit 4294967295),
-  /- 13 -/ .set 7 (.mul (.reg 3) (.lit 65536)),
-  /- 14 -/ .brUnless (.reg 1) 8,
-  /- 15 -/ .set 8 (.mul (.reg 2) (.lit 65536)),
-  /- 16 -/ .set 9 (.mul (.reg 0) (.lit 65536)),
-  /- 17 -/ .read 10 .data,
-  /- 18 -/ .realloc 11 (.reg 10) (.reg 7),
-  /- 19 -/ .brUnless (.eq (.reg 11) (.lit 0)) 1,
-  /- 20 -/ .ret (.lit 4294967295),
-  /- 21 -/ .memset (.add (.reg 11) (.reg 8)) (.lit 0) (.reg 9),
-  /- 22 -/ .write .data (.reg 11),
-  /- 23 -/ .write .pages (.reg 3),
-  /- 24 -/ .write .size (.reg 7),
-  /- 25 -/ .read 12 .shared,
-  /- 26 -/ .brUnless (.reg 12) 1,
-  /- 27 -/ .unlock,
-  /- 28 -/ .ret (.reg 2)
+  /-  1 -/ .set 2 (.lit 4294967295),
+  /-  2 -/ .read 3 .shared,
+  /-  3 -/ .brUnless (.reg 3) 2,
+  /-  4 -/ .set 1 (.lit 0),
+  /-  5 -/ .lock,
+  /-  6 -/ .read 4 .pages,
+  /-  7 -/ .set 5 (.add (.reg 4) (.reg 0)),
+  /-  8 -/ .read 6 .maxPages,
+  /-  9 -/ .brUnless (.land (.ge (.reg 5) (.reg 4)) (.le (.reg 5) (.reg 6))) 19,
+  /- 10 -/ .brUnless (.eq (.reg 5) (.reg 4)) 2,
+  /- 11 -/ .set 2 (.reg 4),
+  /- 12 -/ .brUnless (.lit 0) 16,
+  /- 13 -/ .set 7 (.mul (.reg 5) (.lit 65536)),
+  /- 14 -/ .set 8 (.lit 0),
+  /- 15 -/ .brUnless (.reg 1) 9,
+  /- 16 -/ .set 9 (.mul (.reg 4) (.lit 65536)),
+  /- 17 -/ .set 10 (.mul (.reg 0) (.lit 65536)),
+  /- 18 -/ .read 11 .data,
+  /- 19 -/ .realloc 12 (.reg 11) (.reg 7),
+  /- 20 -/ .brUnless (.eq (.reg 12) (.lit 0)) 2,
+  /- 21 -/ .set 8 (.lit 1),
+  /- 22 -/ .brUnless (.lit 0) 2,
+  /- 23 -/ .memset (.add (.reg 12) (.reg 9)) (.lit 0) (.reg 10),
+  /- 24 -/ .write .data (.reg 12),
+  /- 25 -/ .brUnless (.lnot (.reg 8)) 3,
+  /- 26 -/ .write .pages (.reg 5),
+  /- 27 -/ .write .size (.reg 7),
+  /- 28 -/ .set 2 (.reg 4),
+  /- 29 -/ .read 13 .shared,
+  /- 30 -/ .brUnless (.reg 13) 1,
+  /- 31 -/ .unlock,
+  /- 32 -/ .ret (.reg 2)
 ]
 
 /-! ### vocabulary of the linearizability statement -/
